@@ -113,3 +113,173 @@ Lemma mem_id_in : forall i l, In i l -> mem_id i l = true.
 Proof.
   intros i l H. unfold mem_id. apply existsb_exists. exists i. split; auto. unfold id_eqb. now rewrite !Z.eqb_refl.
 Qed.
+
+(* ------------------------------------------------------------------------------------------ the invariant *)
+Section Inv.
+Variable c : cfg.
+Hypothesis Hvm : vmod c = 0.
+Notation ACT := (ACTIVE_FLAG (tail c)).
+
+Lemma wrapk_id : forall k, wrapk c k = k.
+Proof. intros. unfold wrapk. now rewrite Hvm. Qed.
+
+Definition pc_owned (p : pc) : list Z :=
+  match p with
+  | AMark cv _ => [cv] | AMintMark v => [v] | FStore v _ _ => [v] | FCas v _ _ => [v] | ESlot v _ => [v]
+  | _ => []
+  end.
+Definition owned_thread (th : thread) : list Z := map fst (held th) ++ map fst (taken th) ++ pc_owned (tpc th).
+Definition ocnt (v : Z) (th : thread) : nat := cnt v (owned_thread th).
+Definition cntb (v : Z) (s : shared) : nat := cnt v (map fst (boxed s)).
+Definition total (v : Z) (s : shared) (ths : list thread) : nat := (cnt v (fl s) + sumf (ocnt v) ths + cntb v s)%nat.
+Definition inrange (s : shared) (v : Z) : nat := if (0 <=? v) && (v <? nv s) then 1%nat else 0%nat.
+
+Fixpoint chain (nx : list Z) (h : Z) (l : list Z) : Prop :=
+  match l with [] => h = tail c | x :: r => h = x /\ chain nx (getz nx x) r end.
+
+Definition aba1 (s : shared) (cv ck : Z) : Prop := ck = hk s -> hv s = cv \/ ~ In cv (fl s).
+Definition aba2 (s : shared) (cv ck nx : Z) : Prop := ck = hk s -> (hv s = cv /\ getz (nxt s) cv = nx) \/ ~ In cv (fl s).
+
+Definition TIpc (s : shared) (p : pc) : Prop :=
+  match p with
+  | Idle | AMint => True
+  | ALoadNext cv ck => cv <> tail c /\ ck <= hk s /\ aba1 s cv ck
+  | ACas cv ck nx => cv <> tail c /\ ck <= hk s /\ aba2 s cv ck nx
+  | AMark cv ck => ck <= hk s /\ getz (sver s) cv <= ck
+  | AMintMark v => getz (sver s) v <= 0
+  | FStore v cv ck => getz (sver s) v <= hk s + 1
+  | FCas v cv ck => getz (sver s) v <= hk s + 1 /\ getz (nxt s) v = cv
+  | ESlot v k => getz (sver s) v <= k /\ k <= hk s /\ getz (nxt s) v = ACT
+  end.
+Definition TI (s : shared) (th : thread) : Prop :=
+  (forall v k, In (v, k) (held th) -> getz (nxt s) v = ACT /\ getz (sver s) v <= hk s) /\
+  (forall v k, In (v, k) (taken th) -> getz (nxt s) v = ACT /\ getz (sver s) v <= hk s + 1) /\
+  TIpc s (tpc th).
+
+Record Good (s : shared) (ths : list thread) : Prop := {
+  g_cnt : forall v, total v s ths = inrange s v;
+  g_chain : chain (nxt s) (hv s) (fl s);
+  g_pos : 0 <= hk s /\ 0 <= nv s;
+  g_flver : forall v, In v (fl s) -> getz (sver s) v <= hk s;
+  g_fresh : forall v, nv s <= v -> getz (sver s) v = 0;
+  g_boxed : forall v k, In (v, k) (boxed s) -> getz (sver s) v = k /\ k <= hk s /\ getz (nxt s) v = ACT;
+  g_wins : forall v k, In (v, k) (wins s) -> k < getz (sver s) v;
+  g_ids : forall i, In i (ids s) -> In i (wins s) \/ In i (boxed s);
+  g_miss : miss s = false;
+  g_nodup : NoDup (wins s);
+  g_thr : forall t th, nth_error ths t = Some th -> TI s th }.
+
+Lemma inrange_1 : forall s v, inrange s v = 1%nat <-> 0 <= v < nv s.
+Proof. intros. unfold inrange. destruct (0 <=? v) eqn:A; destruct (v <? nv s) eqn:B; simpl; lia. Qed.
+Lemma inrange_le1 : forall s v, (inrange s v <= 1)%nat.
+Proof. intros. unfold inrange. destruct ((0 <=? v) && (v <? nv s)); lia. Qed.
+
+(* exclusivity consequences of the counting invariant *)
+Lemma excl_thread : forall s ths t th x, (forall v, total v s ths = inrange s v) -> nth_error ths t = Some th ->
+  (ocnt x th >= 1)%nat ->
+  0 <= x < nv s /\ ~ In x (fl s) /\ cntb x s = O /\ ocnt x th = 1%nat /\
+  (forall t0 th0, t0 <> t -> nth_error ths t0 = Some th0 -> ocnt x th0 = O).
+Proof.
+  intros s ths t th x Hc Hn Ho. pose proof (Hc x) as E. unfold total in E.
+  pose proof (sumf_ge _ (ocnt x) _ _ _ Hn). pose proof (inrange_le1 s x).
+  assert (inrange s x = 1%nat) by lia. split; [now apply inrange_1|].
+  split; [apply cnt_notin; lia|]. split; [lia|]. split; [lia|].
+  intros t0 th0 Hne Hn0. pose proof (sumf_ge2 _ (ocnt x) _ _ _ _ _ Hne Hn0 Hn). lia.
+Qed.
+Lemma excl_fl : forall s ths x, (forall v, total v s ths = inrange s v) -> In x (fl s) ->
+  0 <= x < nv s /\ cnt x (fl s) = 1%nat /\ cntb x s = O /\ (forall t0 th0, nth_error ths t0 = Some th0 -> ocnt x th0 = O).
+Proof.
+  intros s ths x Hc Hi. pose proof (Hc x) as E. unfold total in E. apply cnt_in in Hi. pose proof (inrange_le1 s x).
+  assert (inrange s x = 1%nat) by lia. split; [now apply inrange_1|]. split; [lia|]. split; [lia|].
+  intros t0 th0 Hn0. pose proof (sumf_ge _ (ocnt x) _ _ _ Hn0). lia.
+Qed.
+Lemma excl_box : forall s ths x k, (forall v, total v s ths = inrange s v) -> In (x, k) (boxed s) ->
+  0 <= x < nv s /\ ~ In x (fl s) /\ cntb x s = 1%nat /\ (forall t0 th0, nth_error ths t0 = Some th0 -> ocnt x th0 = O).
+Proof.
+  intros s ths x k Hc Hi. pose proof (Hc x) as E. unfold total in E. apply in_map_fst in Hi. apply cnt_in in Hi.
+  fold (cntb x s) in Hi. pose proof (inrange_le1 s x).
+  assert (inrange s x = 1%nat) by lia. split; [now apply inrange_1|]. split; [apply cnt_notin; lia|]. split; [lia|].
+  intros t0 th0 Hn0. pose proof (sumf_ge _ (ocnt x) _ _ _ Hn0). lia.
+Qed.
+Lemma nodup_fl : forall s ths, (forall v, total v s ths = inrange s v) -> NoDup (fl s).
+Proof.
+  intros s ths Hc. apply (NoDup_count_occ Z.eq_dec). intros x. pose proof (Hc x) as E. unfold total, cnt in E.
+  pose proof (inrange_le1 s x). lia.
+Qed.
+
+Lemma owned_in : forall th v, In v (owned_thread th) <-> (ocnt v th >= 1)%nat.
+Proof. intros. unfold ocnt. apply cnt_in. Qed.
+Lemma held_owned : forall th v k, In (v, k) (held th) -> In v (owned_thread th).
+Proof. intros. unfold owned_thread. apply in_or_app. left. eapply in_map_fst; eauto. Qed.
+Lemma taken_owned : forall th v k, In (v, k) (taken th) -> In v (owned_thread th).
+Proof. intros. unfold owned_thread. apply in_or_app. right. apply in_or_app. left. eapply in_map_fst; eauto. Qed.
+Lemma pc_owned_in : forall th v, In v (pc_owned (tpc th)) -> In v (owned_thread th).
+Proof. intros. unfold owned_thread. apply in_or_app. right. apply in_or_app. now right. Qed.
+
+(* a thread's invariant survives a change of the shared state that leaves its own cells alone *)
+Lemma TI_frame : forall s s' th0,
+  TI s th0 ->
+  (forall v, In v (owned_thread th0) -> getz (nxt s') v = getz (nxt s) v /\ getz (sver s') v = getz (sver s) v) ->
+  hk s <= hk s' ->
+  (forall cv ck, cv <> tail c -> ck <= hk s -> aba1 s cv ck -> aba1 s' cv ck) ->
+  (forall cv ck nx, cv <> tail c -> ck <= hk s -> aba2 s cv ck nx -> aba2 s' cv ck nx) ->
+  TI s' th0.
+Proof.
+  intros s s' th0 (Hh & Ht & Hp) Hown Hk A1 A2. split; [|split].
+  - intros v k Hi. destruct (Hown v (held_owned _ _ _ Hi)) as [E1 E2]. destruct (Hh _ _ Hi). rewrite E1, E2. split; auto; lia.
+  - intros v k Hi. destruct (Hown v (taken_owned _ _ _ Hi)) as [E1 E2]. destruct (Ht _ _ Hi). rewrite E1, E2. split; auto; lia.
+  - pose proof (fun v H => Hown v (pc_owned_in th0 v H)) as Hpc. destruct (tpc th0); simpl in *; auto.
+    + destruct Hp as (P1 & P2 & P3). repeat split; auto; try lia.
+    + destruct Hp as (P1 & P2 & P3). repeat split; auto; try lia.
+    + destruct (Hpc cv (or_introl eq_refl)) as [E1 E2]. rewrite E2. lia.
+    + destruct (Hpc v (or_introl eq_refl)) as [E1 E2]. rewrite E2. lia.
+    + destruct (Hpc v (or_introl eq_refl)) as [E1 E2]. rewrite E2. lia.
+    + destruct (Hpc v (or_introl eq_refl)) as [E1 E2]. rewrite E1, E2. destruct Hp. split; auto; lia.
+    + destruct (Hpc v (or_introl eq_refl)) as [E1 E2]. rewrite E1, E2. destruct Hp as (?&?&?). repeat split; auto; lia.
+Qed.
+
+Lemma chain_setz : forall nx x y l h, 0 <= x -> ~ In x l -> (forall z, In z l -> 0 <= z) ->
+  chain nx h l -> chain (setz nx x y) h l.
+Proof.
+  intros nx x y l. induction l; intros h Hx Hn Hp Hc; simpl in *; auto.
+  destruct Hc as [E Hc]. split; auto.
+  rewrite getz_setz_other; [apply IHl; auto | auto | auto | intro; subst; auto].
+Qed.
+Lemma chain_head : forall nx h l, chain nx h l -> h <> tail c -> exists r, l = h :: r /\ chain nx (getz nx h) r.
+Proof. intros nx h l Hc Hn. destruct l; simpl in Hc; [congruence|]. destruct Hc; subst. eauto. Qed.
+
+(* assembling Good for the successor state *)
+Lemma good_intro : forall s ths t th s' th',
+  Good s ths -> nth_error ths t = Some th ->
+  (forall v, (cnt v (fl s') + ocnt v th' + cntb v s' + inrange s v = cnt v (fl s) + ocnt v th + cntb v s + inrange s' v)%nat) ->
+  chain (nxt s') (hv s') (fl s') ->
+  (0 <= hk s' /\ 0 <= nv s') ->
+  (forall v, In v (fl s') -> getz (sver s') v <= hk s') ->
+  (forall v, nv s' <= v -> getz (sver s') v = 0) ->
+  (forall v k, In (v, k) (boxed s') -> getz (sver s') v = k /\ k <= hk s' /\ getz (nxt s') v = ACT) ->
+  (forall v k, In (v, k) (wins s') -> k < getz (sver s') v) ->
+  (forall i, In i (ids s') -> In i (wins s') \/ In i (boxed s')) ->
+  miss s' = false -> NoDup (wins s') ->
+  TI s' th' ->
+  (forall t0 th0, t0 <> t -> nth_error ths t0 = Some th0 -> TI s' th0) ->
+  Good s' (set_nth t th' ths).
+Proof.
+  intros s ths t th s' th' G Hn Hc. intros. constructor; auto.
+  - intros v. pose proof (g_cnt _ _ G v) as E. unfold total in *. pose proof (sumf_set_nth _ (ocnt v) _ _ _ th' Hn).
+    specialize (Hc v). lia.
+  - intros t0 th0 Hn0. destruct (Nat.eq_dec t t0) as [->|Hne].
+    + rewrite (nth_error_set_nth_same _ _ _ _ _ Hn) in Hn0. inversion Hn0; subst; auto.
+    + rewrite nth_error_set_nth_other in Hn0 by auto. eauto.
+Qed.
+
+(* the stepping thread changed only itself *)
+Lemma good_local : forall s ths t th th',
+  Good s ths -> nth_error ths t = Some th -> (forall v, ocnt v th' = ocnt v th) -> TI s th' ->
+  Good s (set_nth t th' ths).
+Proof.
+  intros s ths t th th' G Hn Hc HT. pose proof G as G0. destruct G0.
+  apply (good_intro s ths t th s th'); auto.
+  - intros v. Show. rewrite Hc. lia.
+  - intros t0 th0 _ Hn0. eauto.
+Qed.
+End Inv.
